@@ -79,3 +79,156 @@ impl Fetcher {
         self.0.fetch_queue.accept_block(ctx, available).await
     }
 }
+
+// ---------------------------------------------------------------------------------------------------------------
+// C19, second half: a raw gossip peer for an out-of-crate harness that drives the REAL per-connection `get_block`
+// task of `Network::run_stream` (`gossip/runner.rs`). Out-of-crate twin of the test-only `gossip::testonly::connect`
+// (same code, `pub`): full preface + gossip handshake with a valid node key, then a bare `mux::Mux` with the
+// `get_block` and `push_block_store_state` capabilities in both directions. Adds no behaviour to the node.
+
+/// `fetch_queue.current_blocks()` of a running node (`testonly::Instance::net`).
+pub fn node_current_blocks(net: &crate::Network) -> Vec<u64> {
+    net.gossip.fetch_queue.current_blocks()
+}
+
+/// Public keys of the node's current inbound gossip connections.
+pub fn node_gossip_inbound(net: &crate::Network) -> Vec<zksync_consensus_roles::node::PublicKey> {
+    net.gossip.inbound.current().keys().cloned().collect()
+}
+
+/// The harness's end of a gossip connection to a node.
+pub struct RawPeer {
+    accept: std::collections::BTreeMap<crate::mux::CapabilityId, Arc<crate::mux::StreamQueue>>,
+    connect: std::collections::BTreeMap<crate::mux::CapabilityId, Arc<crate::mux::StreamQueue>>,
+}
+
+/// Background task of a `RawPeer` (the multiplexer over the encrypted TCP stream). Dropping it closes the
+/// connection.
+pub struct RawPeerRunner {
+    mux: crate::mux::Mux,
+    stream: crate::noise::Stream,
+}
+
+impl RawPeerRunner {
+    /// `mux::Mux::run`: returns when the connection ends (closed by the node, IO error) or `ctx` is cancelled.
+    pub async fn run(self, ctx: &ctx::Ctx) -> Result<(), String> {
+        self.mux
+            .run(ctx, self.stream)
+            .await
+            .map_err(|e| format!("{e:#}"))
+    }
+}
+
+fn raw_mux_entry<R: crate::rpc::Rpc>(
+    ctx: &ctx::Ctx,
+) -> (crate::mux::CapabilityId, Arc<crate::mux::StreamQueue>) {
+    (
+        R::CAPABILITY.id(),
+        crate::mux::StreamQueue::new(ctx, R::INFLIGHT, zksync_concurrency::limiter::Rate::INF),
+    )
+}
+
+/// Dials `node_cfg.public_addr` and performs the real preface and gossip handshake as the node with secret key `key`
+/// (the node must accept dynamic inbound connections).
+pub async fn raw_connect(
+    ctx: &ctx::Ctx,
+    node_cfg: &Config,
+    genesis: validator::GenesisHash,
+    key: zksync_consensus_roles::node::SecretKey,
+) -> anyhow::Result<(RawPeer, RawPeerRunner)> {
+    use anyhow::Context as _;
+    use crate::rpc;
+    let addr = node_cfg
+        .public_addr
+        .resolve(ctx)
+        .await?
+        .context("public_addr.resolve()")?[0];
+    let mut stream = crate::preface::connect(ctx, addr, crate::preface::Endpoint::GossipNet)
+        .await
+        .context("preface::connect()")?;
+    let mut cfg = node_cfg.clone();
+    cfg.gossip.key = key;
+    cfg.validator_key = None;
+    super::handshake::outbound(ctx, &cfg, genesis, &mut stream, &node_cfg.gossip.key.public())
+        .await
+        .map_err(|e| anyhow::format_err!("handshake::outbound(): {e:#}"))?;
+    let peer = RawPeer {
+        accept: [
+            raw_mux_entry::<rpc::get_block::Rpc>(ctx),
+            raw_mux_entry::<rpc::push_block_store_state::Rpc>(ctx),
+        ]
+        .into(),
+        connect: [
+            raw_mux_entry::<rpc::get_block::Rpc>(ctx),
+            raw_mux_entry::<rpc::push_block_store_state::Rpc>(ctx),
+        ]
+        .into(),
+    };
+    let mux = crate::mux::Mux {
+        cfg: Arc::new(rpc::MUX_CONFIG.clone()),
+        accept: peer.accept.clone(),
+        connect: peer.connect.clone(),
+    };
+    Ok((peer, RawPeerRunner { mux, stream }))
+}
+
+/// A `get_block` request of the node, received by a `RawPeer`, not answered yet. Dropping it closes the stream
+/// without a response.
+pub struct GetBlockCall {
+    /// The requested block number.
+    pub number: validator::BlockNumber,
+    stream: crate::mux::Stream,
+}
+
+impl GetBlockCall {
+    /// Sends `get_block::Resp(block)`.
+    pub async fn respond(
+        mut self,
+        ctx: &ctx::Ctx,
+        block: Option<validator::Block>,
+    ) -> anyhow::Result<()> {
+        crate::frame::mux_send_proto(
+            ctx,
+            &mut self.stream.write,
+            &crate::rpc::get_block::Resp(block),
+        )
+        .await?;
+        self.stream.write.flush(ctx).await?;
+        Ok(())
+    }
+}
+
+impl RawPeer {
+    /// `push_block_store_state` to the node; returns once the node's handler has answered (the announced range is
+    /// in force on the node's side of the connection).
+    pub async fn announce(&self, ctx: &ctx::Ctx, state: BlockStoreState) -> anyhow::Result<()> {
+        use crate::rpc::push_block_store_state as r;
+        let mut stream = self
+            .accept
+            .get(&<r::Rpc as crate::rpc::Rpc>::CAPABILITY.id())
+            .unwrap()
+            .open(ctx)
+            .await?;
+        crate::frame::mux_send_proto(ctx, &mut stream.write, &r::Req { state }).await?;
+        stream.write.flush(ctx).await?;
+        let _: ((), usize) = crate::frame::mux_recv_proto(ctx, &mut stream.read, usize::MAX).await?;
+        Ok(())
+    }
+
+    /// Waits for the next `get_block` request of the node on this connection.
+    pub async fn next_get_block(&self, ctx: &ctx::Ctx) -> anyhow::Result<GetBlockCall> {
+        use crate::rpc::get_block as r;
+        let mut stream = self
+            .connect
+            .get(&<r::Rpc as crate::rpc::Rpc>::CAPABILITY.id())
+            .unwrap()
+            .open(ctx)
+            .await?;
+        let (req, _): (r::Req, usize) =
+            crate::frame::mux_recv_proto(ctx, &mut stream.read, usize::MAX).await?;
+        Ok(GetBlockCall {
+            number: req.0,
+            stream,
+        })
+    }
+}
